@@ -165,6 +165,7 @@ def coq_eval_codes(prop, imports, defs, exprs, chunk=150, timeout=600, tag="case
 
     pending = list(enumerate(shards))
     running = []
+    tstart = time.time()
     while pending or running:
         while pending and len(running) < nproc:
             k, idxs = pending.pop(0)
@@ -195,6 +196,7 @@ def coq_eval_codes(prop, imports, defs, exprs, chunk=150, timeout=600, tag="case
         running = still
         if running:
             time.sleep(0.05)
+    core.log("  [sld] coq: %d cases in %d shards, %.1fs" % (len(exprs), len(shards), time.time() - tstart))
     return codes, errors
 
 
@@ -246,7 +248,9 @@ def run_impl(prop, jobs_in, tag="impl", max_answers=60, timeout_ms=4000, fresh_e
                 qs.append("findall(T__, logged(T__), Ans__).")
         jobs.append({"id": j["id"], "consult": j["text"], "queries": qs, "max_answers": max_answers + 1,
                      "timeout_ms": timeout_ms, "fresh": n % fresh_every == 0 or bool(j.get("fresh"))})
+    t0 = time.time()
     res = core.vrun_query(prop, jobs, tag=tag)
+    core.log("  [sld] impl: %d jobs in %.1fs" % (len(jobs), time.time() - t0))
     out = {}
     for j in jobs_in:
         r = res.get(j["id"])
@@ -290,3 +294,379 @@ def check_expr(progname, q, tmpl, obs, fuel="default_fuel", cap=60):
 def show_model(prop, progcoq, q, tmpl, fuel="default_fuel"):
     cq, ct = query_coq(q, tmpl)
     return core.coq_eval_show(prop, IMPORTS + "\nOpen Scope N_scope.", "match solve %s %s %s %s with Done a b l => Done (map normt a) (option_map normt b) (map normt l) | x => x end" % (fuel, progcoq, cq, ct))
+
+
+# ------------------------------------------------------------------ random programs
+ATOMS = ["a", "b", "c", "[]"]
+INTS = [0, 1, 2, 3, -1]
+
+
+class ProgGen:
+    """Random programs over predicates <pfx>p0..p3 (acyclic call graph: pK calls only pJ, J > K) plus optional
+    recursive list helpers; `feats` switches construct families on: cut ite naf call arith types err catch findall
+    bagof log scc rec big (arity up to 8)."""
+
+    def __init__(self, rng, pfx, feats, npreds=None):
+        self.rng = rng
+        self.pfx = pfx
+        self.f = feats
+        self.npreds = npreds or rng.choice([2, 3, 3, 4, 4])
+        self.preds = []
+        for i in range(self.npreds):
+            ar = rng.choice([0, 1, 1, 1, 2, 2, 2, 3, 3]) if not (feats.get("big") and rng.random() < 0.25) else rng.choice([4, 5, 6, 7, 8])
+            self.preds.append((pfx + "p%d" % i, ar))
+        self.helpers = []
+        if feats.get("rec"):
+            self.helpers = [(pfx + "app", 3), (pfx + "mem", 2), (pfx + "len", 2)]
+        self.est = {}     # pred name -> (answers bound, work bound)
+        self.ncut_cond = 0
+
+    # ---- terms
+    def const(self):
+        r = self.rng
+        return A(r.choice(ATOMS)) if r.random() < 0.5 else I(r.choice(INTS))
+
+    def var(self, vs):
+        return V(self.rng.choice(vs))
+
+    def term(self, vs, depth=2):
+        r = self.rng
+        x = r.random()
+        if x < 0.40 or depth == 0:
+            return self.var(vs) if r.random() < 0.6 else self.const()
+        if x < 0.60:
+            return self.const()
+        if x < 0.80:
+            n = r.choice([0, 1, 1, 2, 3])
+            items = [self.term(vs, depth - 1) for _ in range(n)]
+            tail = self.var(vs) if (r.random() < 0.3 and n > 0) else NIL
+            return L(items, tail)
+        f, n = r.choice([("f", 1), ("g", 2), ("f", 2), ("h", 3)])
+        return C(f, *[self.term(vs, depth - 1) for _ in range(n)])
+
+    def ground(self, depth=2):
+        r = self.rng
+        x = r.random()
+        if x < 0.5 or depth == 0:
+            return self.const()
+        if x < 0.8:
+            return L([self.ground(depth - 1) for _ in range(r.choice([0, 1, 2, 3]))])
+        f, n = r.choice([("f", 1), ("g", 2)])
+        return C(f, *[self.ground(depth - 1) for _ in range(n)])
+
+    def expr(self, vs, depth=2):
+        r = self.rng
+        x = r.random()
+        if depth == 0 or x < 0.35:
+            return self.var(vs) if r.random() < 0.4 else I(r.choice(INTS + [5, 7]))
+        if x < 0.42:
+            return C("-", self.var(vs))
+        op = r.choice(["+", "-", "*", "//", "+", "-"])
+        return C(op, self.expr(vs, depth - 1), self.expr(vs, depth - 1))
+
+    # ---- goals
+    def call_goal(self, vs, later):
+        r = self.rng
+        name, ar = r.choice(later)
+        args = [self.term(vs, 1) if r.random() < 0.35 else self.var(vs) for _ in range(ar)]
+        return C(name, *args) if ar else A(name)
+
+    def helper_goal(self, vs):
+        r = self.rng
+        name, ar = r.choice(self.helpers)
+        gl = lambda: L([self.const() if r.random() < 0.7 else self.var(vs) for _ in range(r.choice([0, 1, 2, 3]))])
+        if name.endswith("app"):
+            m = r.random()
+            if m < 0.5: return C(name, gl(), gl(), self.var(vs))
+            if m < 0.85: return C(name, self.var(vs), self.var(vs), gl())
+            return C(name, self.var(vs), gl(), self.var(vs))
+        if name.endswith("mem"):
+            return C(name, self.term(vs, 1), gl() if r.random() < 0.9 else self.var(vs))
+        return C(name, gl() if r.random() < 0.9 else self.var(vs), self.var(vs))
+
+    def simple_goal(self, vs, later):
+        """a goal without sub-goals"""
+        r = self.rng
+        f = self.f
+        choices = [("unify", 5), ("true", 1), ("fail", 1.2)]
+        if later: choices.append(("user", 9))
+        if self.helpers: choices.append(("helper", 2))
+        if f.get("cut"): choices.append(("cut", 2.5))
+        if f.get("arith"): choices += [("is", 2.5), ("cmp", 2.5)]
+        if f.get("types"): choices += [("type", 2), ("eq", 1.5)]
+        if f.get("err"): choices += [("undef", 0.25)]
+        if f.get("log"): choices.append(("log", 3))
+        if f.get("throw"): choices.append(("throw", 1.5))
+        k = _weighted(r, choices)
+        if k == "unify":
+            if r.random() < 0.8:
+                x = self.var(vs)
+                t = self.term(vs, 2)
+                for _ in range(5):
+                    if t == x or x[1] not in terms.term_vars(t): break
+                    t = self.term(vs, 2)
+                return C("=", x, t)
+            return C("=", self.term(vs, 2), self.term(vs, 2))
+        if k == "true": return TRUE
+        if k == "fail": return A("fail")
+        if k == "user": return self.call_goal(vs, later)
+        if k == "helper": return self.helper_goal(vs)
+        if k == "cut": return A("!")
+        if k == "is": return C("is", self.var(vs) if r.random() < 0.85 else I(r.choice(INTS)), self.expr(vs, 2))
+        if k == "cmp": return C(r.choice(["<", "=<", ">", ">=", "=:=", "=\\="]), self.expr(vs, 1), self.expr(vs, 1))
+        if k == "type": return C(r.choice(["var", "nonvar", "atom", "integer", "atomic", "compound"]), self.term(vs, 1) if r.random() < 0.3 else self.var(vs))
+        if k == "eq": return C(r.choice(["==", "\\==", "\\="]), self.var(vs), self.term(vs, 1))
+        if k == "undef": return C(self.pfx + "undef", self.var(vs))
+        if k == "log": return C("log", self.term(vs, 1) if r.random() < 0.6 else A("l%d" % r.randrange(100)))
+        if k == "throw": return C("throw", self.ball(vs))
+        raise ValueError(k)
+
+    def ball(self, vs):
+        r = self.rng
+        x = r.random()
+        if x < 0.3: return self.const()
+        if x < 0.4: return self.var(vs)
+        if x < 0.8: return self.term(vs, 2)
+        return C("error", C("my_error", self.term(vs, 1)), self.term(vs, 1))
+
+    def goals(self, vs, later, depth, n=None, in_cond=False):
+        r = self.rng
+        n = n or r.choice([1, 1, 1, 2, 2])
+        return conj([self.goal(vs, later, depth, in_cond) for _ in range(n)])
+
+    def goal(self, vs, later, depth, in_cond=False):
+        r = self.rng
+        f = self.f
+        if depth == 0 or r.random() < (0.55, 0.7, 0.65, 0.55)[min(depth, 3)]:
+            g = self.simple_goal(vs, later)
+            if g == A("!") and in_cond:
+                # a cut inside the condition of an if-then-else (scryer: known deviation) -- kept rare
+                if r.random() < 0.85:
+                    return TRUE
+                self.ncut_cond += 1
+            return g
+        choices = [("conj", 2), ("disj", 3)]
+        if f.get("ite"): choices += [("ite", 3), ("it", 1)]
+        if f.get("naf"): choices += [("naf", 2)]
+        if f.get("call"): choices += [("call1", 2), ("calln", 1.5), ("once", 1), ("gvar", 0.7)]
+        if f.get("catch"): choices += [("catch", 3)]
+        if f.get("findall"): choices += [("findall", 3), ("findall4", 1), ("forall", 1)]
+        if f.get("bagof"): choices += [("bagof", 2), ("setof", 2)]
+        if f.get("scc"): choices += [("scc", 3)]
+        k = _weighted(r, choices)
+        d = depth - 1
+        if k == "conj": return self.goals(vs, later, d, r.choice([2, 2, 3]), in_cond)
+        if k == "disj": return C(";", self.goals(vs, later, d, None, in_cond), self.goals(vs, later, d, None, in_cond))
+        if k == "ite": return C(";", C("->", self.goals(vs, later, d, None, True), self.goals(vs, later, d, None, in_cond)), self.goals(vs, later, d, None, in_cond))
+        if k == "it": return C("->", self.goals(vs, later, d, None, True), self.goals(vs, later, d, None, in_cond))
+        if k == "naf": return C("\\+", self.goals(vs, later, d))
+        if k == "call1": return C("call", self.goals(vs, later, d))
+        if k == "once": return C("once", self.goals(vs, later, d))
+        if k == "gvar":
+            gv = V("G%d" % r.randrange(2))
+            return conj([C("=", gv, self.goals(vs, later, d)), C("call", gv) if r.random() < 0.6 else gv])
+        if k == "calln":
+            # a goal with its last arguments split off
+            cands = [p for p in later if p[1] >= 1]
+            if cands and r.random() < 0.7:
+                name, ar = r.choice(cands)
+                args = [self.term(vs, 1) if r.random() < 0.35 else self.var(vs) for _ in range(ar)]
+                cut = r.randrange(0, ar)
+                head = C(name, *args[:cut]) if cut else A(name)
+                return C("call", head, *args[cut:])
+            op = r.choice(["=", "==", ",", ";"])
+            if op in ("=", "=="):
+                a, b = self.var(vs), self.term(vs, 1)
+                return C("call", A(op), a, b) if r.random() < 0.5 else C("call", C(op, a), b)
+            return C("call", A(op), self.goals(vs, later, 0, 1), self.goals(vs, later, 0, 1))
+        if k == "catch":
+            catcher = self.catcher(vs)
+            return C("catch", self.goals(vs, later, d), catcher, self.goals(vs, later, 0, r.choice([1, 1, 2])))
+        if k == "findall":
+            return C("findall", self.term(vs, 1), self.goals(vs, later, d), self.result_term(vs))
+        if k == "findall4":
+            return C("findall", self.term(vs, 1), self.goals(vs, later, d), self.var(vs), self.result_term(vs))
+        if k == "forall":
+            return C("forall", self.goals(vs, later, d), self.goals(vs, later, 0, 1))
+        if k in ("bagof", "setof"):
+            g = self.goals(vs, later, d)
+            if r.random() < 0.4:
+                g = C("^", self.var(vs), g)
+                if r.random() < 0.3:
+                    g = C("^", self.var(vs), g)
+            tm = self.var(vs) if r.random() < 0.6 else self.term(vs, 1)
+            return C(k, tm, g, self.result_term(vs))
+        if k == "scc":
+            return C("setup_call_cleanup", self.goals(vs, later, 0, 1), self.goals(vs, later, d), C("log", A("cl%d" % r.randrange(1000))))
+        raise ValueError(k)
+
+    def catcher(self, vs):
+        r = self.rng
+        x = r.random()
+        if x < 0.35: return self.var(vs)
+        if x < 0.5: return C("error", self.var(vs), V("_"))
+        if x < 0.6: return C("error", C("type_error", self.var(vs), V("_")), V("_"))
+        return self.ball(vs)
+
+    def result_term(self, vs):
+        r = self.rng
+        x = r.random()
+        if x < 0.75: return self.var(vs)
+        if x < 0.9: return L([self.var(vs) for _ in range(r.choice([0, 1, 2]))], self.var(vs) if r.random() < 0.5 else NIL)
+        return L([self.ground(1) for _ in range(r.choice([0, 1, 2]))])
+
+    # ---- clauses
+    def head_arg(self, vs, first):
+        r = self.rng
+        x = r.random()
+        if x < 0.45: return self.var(vs)
+        if first:
+            # shapes the first-argument indexing distinguishes
+            y = r.random()
+            if y < 0.3: return A(r.choice(ATOMS))
+            if y < 0.55: return I(r.choice(INTS))
+            if y < 0.8: return L([self.var(vs)], self.var(vs)) if r.random() < 0.6 else L([self.term(vs, 1) for _ in range(r.choice([0, 1, 2]))])
+            return C(r.choice(["f", "g"]), self.var(vs)) if r.random() < 0.5 else C("g", self.term(vs, 1), self.var(vs))
+        return self.term(vs, 2)
+
+    def clause(self, idx):
+        r = self.rng
+        name, ar = self.preds[idx]
+        later = self.preds[idx + 1:]
+        nv = r.choice([1, 2, 3, 3, 4, 5])
+        vs = ["X%d" % i for i in range(nv)]
+        args = [self.head_arg(vs, i == 0) for i in range(ar)]
+        head = C(name, *args) if ar else A(name)
+        if r.random() < (0.45 if later else 0.7):
+            body = TRUE
+        else:
+            body = self.goals(vs, later, r.choice([0, 1, 2, 3, 3]), r.choice([1, 2, 2, 3, 3, 4]))
+            if self.f.get("cut") and r.random() < 0.12:      # neck cut
+                body = C(",", A("!"), body)
+        return (head, body)
+
+    def program(self):
+        r = self.rng
+        prog = []
+        for i in range(self.npreds):
+            for _ in range(r.choice([1, 2, 2, 3, 3, 4])):
+                prog.append(self.clause(i))
+        p = self.pfx
+        if self.helpers:
+            X, Y, Z, T, N, M = V("X"), V("Y"), V("Z"), V("T"), V("N"), V("M")
+            prog += [(C(p + "app", NIL, X, X), TRUE), (C(p + "app", L([X], Y), Z, L([X], T)), C(p + "app", Y, Z, T)),
+                     (C(p + "mem", X, L([X], V("_T"))), TRUE), (C(p + "mem", X, L([V("_Y")], T)), C(p + "mem", X, T)),
+                     (C(p + "len", NIL, I(0)), TRUE), (C(p + "len", L([V("_H")], T), N), conj([C(p + "len", T, M), C("is", N, C("+", M, I(1)))]))]
+        return prog
+
+    def query(self):
+        r = self.rng
+        nv = r.choice([1, 2, 2, 3])
+        vs = ["Q%d" % i for i in range(nv)]
+        x = r.random()
+        if x < 0.6:
+            name, ar = r.choice(self.preds[:2]) if r.random() < 0.7 else r.choice(self.preds)
+            pool = ["Q%d" % i for i in range(max(nv, min(ar, 4)))]
+            r.shuffle(pool)
+            args = []
+            for i in range(ar):
+                x = r.random()
+                if x < 0.55: args.append(V(pool[i % len(pool)]))
+                elif x < 0.7: args.append(self.var(vs))
+                elif x < 0.85: args.append(self.ground(1))
+                else: args.append(self.term(vs, 1))
+            q = C(name, *args) if ar else A(name)
+        else:
+            q = self.goals(vs, self.preds, r.choice([1, 2]), r.choice([1, 2, 3]))
+        tv = terms.term_vars(q)
+        tv = [v for v in tv if not v.startswith("_")]
+        return q, C("ans", *[V(v) for v in tv]) if tv else A("ans")
+
+
+def _weighted(r, choices):
+    tot = sum(w for _, w in choices)
+    x = r.random() * tot
+    for k, w in choices:
+        x -= w
+        if x <= 0:
+            return k
+    return choices[-1][0]
+
+
+# ------------------------------------------------------------------ static size estimate (keeps the model's work bounded)
+CONTROL2 = {",", ";", "->"}
+
+
+def estimate_goal(g, est):
+    """(answers bound, work bound) of a goal, ignoring failure and cuts (an over-approximation)."""
+    if g[0] == "var":
+        return (4, 20)
+    if g[0] == "atom":
+        return est.get((g[1], 0), (1, 1))
+    if g[0] != "cmp":
+        return (1, 1)
+    f, args = g[1], g[2]
+    n = len(args)
+    if f == "," and n == 2:
+        a1, w1 = estimate_goal(args[0], est); a2, w2 = estimate_goal(args[1], est)
+        return (a1 * a2, w1 + a1 * w2)
+    if f == ";" and n == 2:
+        if args[0][0] == "cmp" and args[0][1] == "->" and len(args[0][2]) == 2:
+            ac, wc = estimate_goal(args[0][2][0], est); at, wt = estimate_goal(args[0][2][1], est); ae, we = estimate_goal(args[1], est)
+            return (max(at, ae), wc + wt + we)
+        a1, w1 = estimate_goal(args[0], est); a2, w2 = estimate_goal(args[1], est)
+        return (a1 + a2, w1 + w2)
+    if f == "->" and n == 2:
+        ac, wc = estimate_goal(args[0], est); at, wt = estimate_goal(args[1], est)
+        return (at, wc + wt)
+    if f in ("\\+", "once") and n == 1:
+        a, w = estimate_goal(args[0], est)
+        return (1, w + 1)
+    if f == "call" and n >= 1:
+        if n == 1:
+            a, w = estimate_goal(args[0], est)
+            return (a, w + 1)
+        h = args[0]
+        if h[0] == "atom": return estimate_goal(("cmp", h[1], args[1:]), est)
+        if h[0] == "cmp": return estimate_goal(("cmp", h[1], h[2] + args[1:]), est)
+        return (4, 20)
+    if f == "catch" and n == 3:
+        a1, w1 = estimate_goal(args[0], est); a2, w2 = estimate_goal(args[2], est)
+        return (a1 + a2, w1 + w2 + 1)
+    if f == "findall" and n in (3, 4):
+        a, w = estimate_goal(args[1], est)
+        return (1, w + a + 1)
+    if f in ("bagof", "setof") and n == 3:
+        a, w = estimate_goal(args[1], est)
+        return (a, w + a * a + 1)
+    if f == "^" and n == 2:
+        return estimate_goal(args[1], est)
+    if f == "forall" and n == 2:
+        a1, w1 = estimate_goal(args[0], est); a2, w2 = estimate_goal(args[1], est)
+        return (1, w1 + a1 * w2 + 1)
+    if f == "setup_call_cleanup" and n == 3:
+        a0, w0 = estimate_goal(args[0], est); a1, w1 = estimate_goal(args[1], est)
+        return (a1, w0 + w1 + 2)
+    if (f, n) in est:
+        return est[(f, n)]
+    return (1, 1)
+
+
+def estimate_program(prog):
+    est = {}
+    keys = []
+    for h, b in prog:
+        k = (h[1], len(h[2]) if h[0] == "cmp" else 0)
+        if k not in keys: keys.append(k)
+    for k in keys:
+        if k[0].endswith("app") or k[0].endswith("mem") or k[0].endswith("len"):
+            est[k] = (5, 25)
+    for k in reversed(keys):          # callees are defined after their callers
+        if k in est: continue
+        a, w = 0, 1
+        for h, b in prog:
+            if (h[1], len(h[2]) if h[0] == "cmp" else 0) == k:
+                ab, wb = estimate_goal(b, est)
+                a += ab; w += wb + 1
+        est[k] = (a, w)
+    return est
